@@ -141,7 +141,7 @@ def run(tier="quick", seed=0, replay=None):
             chk.violation("welford", f"WelfordTracker: {welford_fails(small)} on stream {[rs(v) for v in small]}",
                           {"tracker": "welford", "vs": [rs(v) for v in small]})
         # ---- ES
-        a = chk.rng.choice(alphas) if kind != "enum" else alphas[len(vs) % 4]
+        a = alphas[len(vs) % 4] if kind == "enum" else (chk.rng.choice([Q(0), Q(1, 2), Q(1)]) if kind == "long" else chk.rng.choice(alphas))
         chk.case({"tracker": "es", "alpha": rs(a), "vs": [rs(v) for v in vs[:50]], "n": len(vs)}, nontrivial=len(vs) > 0)
         f = es_fails(a, vs)
         if f:
